@@ -28,6 +28,11 @@ CLAIMS = {
             "Decides lock discipline, the three mutation guards (zero storage / absent slot / more than one slot, each with a recovered key), "
             "re-sealing with the verified key after every mutation, and that a key leaves getKey only through an unconditional constant-time "
             "HMAC verification after version/presence/algorithm checks; canonical hash order. OpenPGP/HMAC semantics are trusted.", "§3 C20"),
+    "C17": ("lockset on the dependency database + conflict-guard path-cuts + key-literal agreement + table exhaustiveness + rollback shape",
+            "Decides that exclusive/shared claims are written only behind their conflict guards, that inputs are inserted only without an "
+            "equal-key neighbour, that all lookup keys are built from one input's own (namespace,type,id), that notifications get a fresh "
+            "slice, the export table, and that a rejected registration is rolled back exactly on the constructor-failure path and that "
+            "delivery is nil-safe. The sorted-merge algorithm of UpdateInputs is not decided.", "§3 C17"),
     "C19": ("value provenance (fresh-copy) analysis on go/ssa + copy-on-write path-cut + who-may-write for raw maps",
             "Decides that nothing but DeepCopy results enters or leaves the store and the read cache, that every in-place write of the "
             "copy-on-write metadata containers targets storage created in the same call, that the module's DeepCopy implementations copy "
